@@ -209,12 +209,13 @@ class ClassRef(Val):
 
 
 class Types(Val):
-    """the symbolic list of site type labels of one system"""
-    def __init__(self, name='types'):
+    """the symbolic list of site type labels of one system; `partial` marks a slice / filtered sub-list of it"""
+    def __init__(self, name='types', partial=None):
         self.name = name
+        self.partial = partial
 
     def __repr__(self):
-        return 'Types<%s>' % self.name
+        return 'Types<%s%s>' % (self.name, (' ' + self.partial) if self.partial else '')
 
 
 class Label(Val):
@@ -1269,6 +1270,12 @@ class Interp(object):
             nat = self.natives.get((o.clsname, '__getattr__'))
             if nat is not None:
                 return nat(self, o, [Const(name)], {}, node)
+            if name == '__class__' and isinstance(o.cls, ClassInfo):
+                return ClassRef(o.cls)
+            if not isinstance(o.cls, ClassInfo):
+                # an object of a *library* class that is only partially modelled (pint Quantity, OptimizeResult ...):
+                # an attribute outside the model is unknown, not absent
+                raise Unsupported('attribute %s of library object %s is not modelled' % (name, o.clsname), node)
             raise Raised('AttributeError', '%s object has no attribute %s' % (o.clsname, name),
                          self.loc(node))
         if isinstance(o, ClassRef):
@@ -1285,6 +1292,8 @@ class Interp(object):
             return self.lib.attr(self, o, name, node)
         if isinstance(o, (Num, Arr, View, Masked)):
             return self.lib.num_attr(self, o, name, node)
+        if isinstance(o, Types):
+            return self.lib.types_attr(self, o, name, node)
         if isinstance(o, Const) and isinstance(o.v, str):
             hook = self.str_methods.get(name)
             if hook is not None:
@@ -1428,6 +1437,8 @@ class Interp(object):
                 return self.call(m, [a], {}, node)
             raise Raised('TypeError', 'unsupported operand %s for %s (reflected)' % (op, b.clsname),
                          self.loc(node))
+        if isinstance(a, Index) or isinstance(b, Index):
+            return Unknown('arithmetic on the position of a type in the type list')
         if isinstance(a, Mask) and isinstance(b, Mask) and op in ('BitAnd', 'BitOr'):
             c = (a.cond & b.cond) if op == 'BitAnd' else (a.cond | b.cond)
             return Mask(c, 'array' if 'array' in (a.kind, b.kind) else 'scalar')
@@ -1591,6 +1602,10 @@ class Interp(object):
             if sym == '!=':
                 return TRUE
             raise Unsupported('ordering with a constant object', node)
+        if isinstance(a, Obj) and isinstance(b, Obj) and a.cls == 'shape' and b.cls == 'shape' and sym in ('==', '!='):
+            # shapes are not modelled: equality of two shapes is a data condition the driver must explore
+            m = Mask(P.Cond.flag('shape#%d==shape#%d' % tuple(sorted((a.oid, b.oid)))), 'scalar')
+            return m if sym == '==' else Mask(~m.cond, 'scalar')
         if isinstance(a, (Obj, ClassRef)) or isinstance(b, (Obj, ClassRef)):
             if sym in ('==', '!='):
                 r = a is b
